@@ -805,6 +805,8 @@ func ProcessAggregatedDependencyGraphs(ctx *fasthttp.RequestCtx, myid int64) {
 	searchRequestBody.QueryLanguage = "Splunk QL"
 	searchRequestBody.IndexName = "service-dependency"
 	searchRequestBody.SearchText = "*"
+	// One graph is stored per hour; without a size only the default 100 hits (about four days) would be merged.
+	searchRequestBody.Size = 10000
 
 	var valueType string
 	if val, ok := readJSON["startEpoch"]; ok {
